@@ -158,3 +158,15 @@ func SelfTest(w *World, verifDir, tier string, seed uint64) int {
 	}
 	return 0
 }
+
+// GenerateOne reproduces scenario number index of the batch with the given seed.
+func GenerateOne(w *World, chk Check, seed uint64, index int) *Scenario {
+	ctx := &Ctx{W: w, Slot: 0, Stats: NewStats(), Tier: "gen", cache: &refCache{m: map[string]*Outcome{}}, Quiet: true}
+	sc := chk.Generate(ctx, NewRand(Mix(seed, chk.ID(), uint64(index))), index)
+	if sc != nil {
+		sc.Prop = chk.ID()
+		sc.Seed = seed
+		sc.Index = index
+	}
+	return sc
+}
